@@ -33,14 +33,14 @@ var ExpectedPkgs = []string{
 
 // Prog is the loaded, type-checked repository in SSA form.
 type Prog struct {
-	RepoDir string
-	Whole   bool // whole-program SSA (thorough) or repo packages only (quick)
-	SplitReturns int // returns split off single-exit tails by UndoSingleExit
-	Fset    *token.FileSet
-	Pkgs    map[string]*packages.Package // repo packages by import path
-	All     []*packages.Package          // every package loaded (deps too)
-	SSA     *ssa.Program
-	SSAPkgs map[string]*ssa.Package
+	RepoDir      string
+	Whole        bool // whole-program SSA (thorough) or repo packages only (quick)
+	SplitReturns int  // returns split off single-exit tails by UndoSingleExit
+	Fset         *token.FileSet
+	Pkgs         map[string]*packages.Package // repo packages by import path
+	All          []*packages.Package          // every package loaded (deps too)
+	SSA          *ssa.Program
+	SSAPkgs      map[string]*ssa.Package
 	// Funcs are all source-level functions (incl. methods and function
 	// literals) of the repo packages.
 	Funcs []*ssa.Function
